@@ -335,8 +335,17 @@ def _fk_roundtrip(case, ctx):
     Larg = np.array(L, dtype=float).reshape((6, 1) if case["col"] else (6,))
     kw = {"fk_mode": mode}
     if case["plate_pos"]:
+        # Only for the Raphson solver (fk_mode 1), which iterates in base-relative coordinates and therefore really
+        # does "start from the neutral pose" over the new base.  fk_mode 0 starts scipy's fsolve from the GLOBAL top
+        # pose it finds, which for a displaced base is not the neutral pose of the statement: not generated.
+        if case.get("pp_x") is not None and mode == 1:
+            X = O.pose_from_taa(np.asarray(case["pp_x"], dtype=float))
+            T_bot, T_top = X @ T_bot, X @ T_top          # what FK is now asked to assemble
+            ctx.label("plate_pos given, different from the current base")
+            ctx.nontrivial(True)
+        else:
+            ctx.label("plate_pos given")
         kw["plate_pos"] = sps.make_tm(T_bot)
-        ctx.label("plate_pos given")
     if case["mode_attr"]:
         sp.fk_mode = mode
         kw.pop("fk_mode")
@@ -354,6 +363,7 @@ def _fk_roundtrip(case, ctx):
     e_top = _pose_err(model, Tt_now, T_top)
     Lnow = _lengths(sut(sp.getLens), "getLens")
     e_len = float(np.abs(Lnow - L).max())
+    e_bot = _pose_err(model, Tb_now, T_bot)
     ctx.label("fk err/h " + _decade(max(e_ret, e_state, e_top, e_len, 1e-300), h))
     ctx.label("FK valid=%s" % bool(ret[1]))
     fails = int(getattr(sp, "fail_count", 0) or 0)
@@ -376,6 +386,8 @@ def _fk_roundtrip(case, ctx):
             tag = "[other-fk-root mode=%d ratio=%.6f rot=%.6f dlen=%.2e] " % (
                 mode, model.spec["rt"] / model.spec["rb"], float(np.linalg.norm(u[3:])), d_root)
     msg = "%sFK(mode %d, h=%.4g, tol=%.3g)" % (tag, mode, h, tol)
+    if e_bot > tol:
+        raise Violation("%s: getBottomT() is %.3g from the fixed-plate pose FK was given" % (msg, e_bot))
     if e_ret > tol:
         raise Violation("%s: returned pose is %.3g from the goal pose (largest displacement of a top-plate point)"
                         % (msg, e_ret))
@@ -493,6 +505,9 @@ def _fk_cases(kind):
         "top_form": _FORMS,
         "bot_implicit": st.booleans(),
         "plate_pos": st.booleans(),
+        # when the fixed plate is passed explicitly it may also differ from where the platform stands: FK then has to
+        # assemble the platform over THAT base (X . T_bot), i.e. recover X . T_top
+        "pp_x": st.one_of(st.none(), st.none(), G.taas(maxnorm=3.0, maxang=2.0)),
         "col": st.booleans(),
         "seed": _SEED,
     })
